@@ -77,12 +77,6 @@ def model (line : String) : String :=
     | none => "SKIP"
   | none => "bad-op"
 
-/-- the property itself on a quiescent check (a group that is exactly one `C`). -/
-def quiescentCheckOk (np workers : Nat) (v : View) : Bool :=
-  (np = 0 || (v.working == !v.flags.any id)) &&
-  (v.working || (v.active == 0 && v.stops == 0)) &&
-  (!v.working || (v.active == workers && v.stops == workers))
-
 def monitorRun (np : Nat) (states : List St) (workers : Nat) : List Grp → List String → String
   | [], [] => "ok"
   | .work :: rest, o :: os =>
